@@ -33,7 +33,7 @@ MDR = (1, 2, 4, 8)
 
 
 def build(tier, seed):
-    L = 4 if tier == 'quick' else 6
+    L = 5 if tier == 'quick' else 7
     cases = []
     for w in words((-1, 0, 2), 2, L, nonzero=True):
         for dt in DTS:
